@@ -556,13 +556,6 @@ def classify(case):
             targets = [t for v in ty["mapping"].values() for t in (v if isinstance(v, list) else [v])]
             if any(t == "" or "|" in t for t in targets):
                 return "D67"   # target field name that cannot be written as a key
-            one = {f: t for f, t in ty["mapping"].items() if isinstance(t, str)}
-            for d in doc["detection"].values():
-                for x in walk_defs(d):
-                    if isinstance(x, dict):
-                        written = [canon_key("|".join([one.get(k.split("|")[0], k.split("|")[0])] + k.split("|")[1:])) for k in x]
-                        if any(written.count(w) > 1 and {"neq", "all"} <= set(w.split("|")[1:]) for w in written):
-                            return "D73"   # two negated 'all' items end up under the same key
         return None
     if case["kind"] != "rule":
         return None
